@@ -81,11 +81,14 @@ def model_cache_part(ctx):
 
 def thermo_part(ctx):
     from .. import thermo_drv as TD
-    for system, alpha in (("alzr", TD.binary_alphabet()), ("nicral", TD.ternary_alphabet())):
+    for system, alpha in (("alzr", TD.binary_alphabet()), ("nicral", TD.ternary_alphabet()), ("fecrni", TD.two_phase_alphabet())):
         memo = TD.memo_answers(system, alpha)
         alpha = TD.stable_alphabet(alpha, memo)
         hist = TD.gen_histories(ctx.rng, alpha, ctx.tier)
         trs = [TD.run_history(system, h, memo) for h in hist]
+        if system == "alzr":
+            hist = hist + [[("switch-method",)]]
+            trs = trs + [TD.method_switch_history()]
         import copy
         can = copy.deepcopy(next(t for t in trs if any(e["e"] == "query" for e in t)))
         for e in can:
@@ -111,7 +114,7 @@ def thermo_part(ctx):
 
 
 def run(ctx, replay=None):
-    ctx.rule = ("ThermoCache.tla: on the real Al-Zr (binary) and Ni-Cr-Al (ternary) databases every ordered pair of queries (driving force, interfacial "
+    ctx.rule = ("ThermoCache.tla: on the real Al-Zr (binary), Ni-Cr-Al (ternary) and Fe-Cr-Ni (two phases with mobility data: diffusivities of the matrix and of the second phase) databases every ordered pair of queries (driving force, interfacial "
                 "composition alone and inside an array, interdiffusivity, tracer diffusivity, curvature factors, impingement) plus seeded histories of 3-6 "
                 "queries with removeCache on/off and clearCache calls is executed on one long-lived object; each answer must equal the answer of an object "
                 "with empty caches (rtol 1e-6), repeats must agree, arguments must be untouched, alone = inside an array. "
